@@ -5,6 +5,7 @@
 //! usage: rvharness <cmd> [--seed N] [--n N] [--out DIR] [--tier quick|thorough] [--aux FILE]
 
 mod ast;
+mod guard;
 mod ops_api;
 mod ops_case;
 mod ops_engine;
